@@ -7,20 +7,26 @@ EXTENDS Awards, TLC, Json
 
 CONSTANTS MaxEntries, EntryDays    \* day numbers; the deposit is on day 100
 Dep == 100
-D(kind, vdate, price) == [kind |-> kind, vdate |-> vdate, price |-> price]
+D(kind, vdate, price) == [kind |-> kind, vdate |-> vdate, price |-> price, fprice |-> ""]
+DB(vdate, price, fprice) == [kind |-> "both", vdate |-> vdate, price |-> price, fprice |-> fprice]
 EntryShapes(date) ==
   { [date |-> date, sym |-> "ACME", details |-> {D("vest", 0, "125.50")}, order |-> "vf"],
     [date |-> date, sym |-> "ACME", details |-> {D("fallback", 0, "130.00")}, order |-> "vf"],
     \* a fallback price and a vest-date value whose vest date is two days before the entry date
     [date |-> date, sym |-> "ACME", details |-> {D("fallback", 0, "131.00"), D("vest", date - 2, "126.00")}, order |-> "fv"],
     [date |-> date, sym |-> "ACME", details |-> {D("fallback", 0, "131.00"), D("vest", date - 2, "126.00")}, order |-> "vf"],
+    \* both values in ONE detail object, with and without its own vest date
+    [date |-> date, sym |-> "ACME", details |-> {DB(0, "127.25", "133.00")}, order |-> "vf"],
+    [date |-> date, sym |-> "ACME", details |-> {DB(date - 1, "128.75", "134.00")}, order |-> "vf"],
     [date |-> date, sym |-> "OTHR", details |-> {D("vest", 0, "9.99")}, order |-> "vf"] }
 AllEntries == UNION {EntryShapes(d) : d \in EntryDays}
 Files == UNION {[1..n -> AllEntries] : n \in 0..MaxEntries}
 
 Emit ==
   \A f \in Files :
-    PrintT(<<"AWARDS", ToJson([entries |-> f, dep |-> Dep, sym |-> "ACME", admissible |-> Lookup(f, "ACME", Dep)])>>)
+    \* admissible2: a second deposit on the same day, of the other symbol, looked up on its own
+    PrintT(<<"AWARDS", ToJson([entries |-> f, dep |-> Dep, sym |-> "ACME", admissible |-> Lookup(f, "ACME", Dep),
+                               sym2 |-> "OTHR", admissible2 |-> Lookup(f, "OTHR", Dep)])>>)
 ASSUME Emit
 \* sanity of the look-up on the model: never a later entry, never older than seven days, and the closest one
 Sound ==
